@@ -160,18 +160,17 @@ example : exA.Tidy ∧ exB.Tidy ∧
   refine ⟨⟨fun h => by simp [exA] at h, fun h => by simp [exA] at h⟩,
     ⟨fun h => by simp [exB] at h, fun _ => rfl⟩, by decide⟩
 
-/-- the same for every pair of members (`Version` or range).  Extra hypothesis `hloc`: the pair is not
-"a version and a local build of it" (`1.0 ∪ 1.0+local` is the point *range* `[1.0+local, 1.0+local]`). -/
-theorem member_union_single_exact_partial (x y : RC) (hx : x.WF) (hy : y.WF) (htx : x.Tidy) (hty : y.Tidy)
-    (hloc : ∀ a b, x = .ver a → y = .ver b → a.allows b = true → b.allows a = true)
+/-- the same for every pair of members (`Version` or range); since repo fix 583640d `1.0 ∪ 1.0+local` is `1.0`
+(weak equality), no longer a point range. -/
+theorem member_union_single_exact (x y : RC) (hx : x.WF) (hy : y.WF) (htx : x.Tidy) (hty : y.Tidy)
     (u : RC) (h : rcUnionSingle x y = .ok (some u)) :
     u.WF ∧ u.Tidy ∧ (∀ e ∈ u.bounds, e ∈ x.bounds ∨ e ∈ y.bounds) ∧
     ∀ p, p.wf = true → Regular (x.bounds ++ y.bounds) p → u.allows p = (x.allows p || y.allows p) :=
-  RC.rcUnionSingle_exact x y hx hy htx hty hloc u h
+  RC.rcUnionSingle_exact x y hx hy htx hty u h
 
 /-- **`VersionUnion.of` (stable sort + merge) preserves membership**: whenever it returns, every member of
 the result is well-formed, mentions only bounds of the inputs, and the result admits a regular probe iff
-some input does.  (`Good l`: members well-formed and tidy, no version/local-build pair.)
+some input does.  (`Good l`: members well-formed and tidy.)
 Not proved: that it always returns, and that the result is sorted and separated — see
 `union_of_full_statement`. -/
 theorem union_of_preserves_membership_partial (l : List RC) (res : VC) (h : unionOfFlat l = .ok res)
@@ -193,7 +192,7 @@ def union_of_full_statement : Prop :=
 
 example : Good [.rng exA, .rng exB] ∧
     (match unionOfFlat [.rng exB, .rng exA] with | .ok _ => true | _ => false) = true := by
-  refine ⟨⟨?_, ?_⟩, by decide⟩
+  refine ⟨?_, by decide⟩
   · intro c hc
     simp only [List.mem_cons, List.mem_nil_iff, or_false] at hc
     rcases hc with rfl | rfl
@@ -203,28 +202,25 @@ example : Good [.rng exA, .rng exB] ∧
     · refine ⟨⟨?_, ?_⟩, ⟨fun h => by simp [exB] at h, fun _ => rfl⟩⟩
       · intro e he; simp [VRange.bounds, exB] at he; subst he; decide
       · intro m M hm hM; simp [exB] at hM
-  · intro a b ha; simp at ha
 
 /-- **`a.union(b)` for two members is exact whenever it returns**, and commutative up to admitted
 versions. -/
-theorem member_union_exact_partial (x y : RC) (hx : x.WF) (hy : y.WF) (htx : x.Tidy) (hty : y.Tidy)
-    (hloc : ∀ a b, x = .ver a → y = .ver b → (a.allows b = true ↔ b.allows a = true))
+theorem member_union_exact (x y : RC) (hx : x.WF) (hy : y.WF) (htx : x.Tidy) (hty : y.Tidy)
     (r r' : VC) (h : RC.union x y = .ok r) (h' : RC.union y x = .ok r') :
     ∀ p, p.wf = true → Regular (x.bounds ++ y.bounds) p →
       r.allowsPlain p = (x.allows p || y.allows p) ∧ r'.allowsPlain p = r.allowsPlain p := by
   intro p hp hreg
-  have e1 := RC.union_exact x y hx hy htx hty hloc r h p hp hreg
-  have e2 := RC.union_exact y x hy hx hty htx (fun a b ha hb => (hloc b a hb ha).symm) r' h' p hp
+  have e1 := RC.union_exact x y hx hy htx hty r h p hp hreg
+  have e2 := RC.union_exact y x hy hx hty htx r' h' p hp
     (fun e he => hreg e (by simp at he ⊢; exact he.symm))
   exact ⟨e1, by rw [e1, e2, Bool.or_comm]⟩
 
 /-- **`a.union(b)` for two members is defined and exact** (lower bounds not local builds) -/
 theorem member_union_defined_partial (x y : RC) (hx : x.WF) (hy : y.WF) (htx : x.Tidy) (hty : y.Tidy)
-    (hloc : ∀ a b, x = .ver a → y = .ver b → (a.allows b = true ↔ b.allows a = true))
     (hn : NoLocalLower [x, y]) :
     ∃ res, RC.union x y = .ok res ∧
       ∀ p, p.wf = true → Regular (x.bounds ++ y.bounds) p → res.allowsPlain p = (x.allows p || y.allows p) :=
-  RC.union_total x y hx hy htx hty hloc hn
+  RC.union_total x y hx hy htx hty hn
 
 /-! ## difference -/
 
@@ -236,14 +232,13 @@ theorem version_minus_member_exact (a : Version) (c : RC) (ha : a.wf = true) (hc
 
 /-- **range ∖ range is exact whenever it returns.**  Extra hypotheses: `hec` — `allows_higher`, which compares
 the effective upper ends, agrees with the written ones (it does whenever the two upper bounds are equal or of
-different releases); `hnl` — `a`'s own two ends are not a version and a local build of it. -/
+different releases). -/
 theorem range_difference_exact_partial (a b : VRange) (ha : a.WF) (hb : b.WF) (hta : a.Tidy) (htb : b.Tidy)
     (hec : VRange.EndsConsistent a b)
-    (hnl : ∀ m M, a.min = some m → a.max = some M → m.allows M = false ∧ M.allows m = false)
     (res : VC) (h : RC.difference (.rng a) (.rng b) = .ok res) :
     ∀ p, p.wf = true → Regular (a.bounds ++ b.bounds) p →
       res.allowsPlain p = (a.allows p && !b.allows p) :=
-  VRange.difference_exact a b ha hb hta htb hec hnl res h
+  VRange.difference_exact a b ha hb hta htb hec res h
 
 example : VRange.EndsConsistent exA exB ∧ VRange.EndsConsistent exB exA ∧
     (match RC.difference (.rng exB) (.rng exA) with | .ok _ => true | _ => false) = true := by
@@ -255,11 +250,10 @@ example : VRange.EndsConsistent exA exB ∧ VRange.EndsConsistent exB exA ∧
 local build -/
 theorem range_difference_defined_partial (a b : VRange) (ha : a.WF) (hb : b.WF) (hta : a.Tidy) (htb : b.Tidy)
     (hec : VRange.EndsConsistent a b)
-    (hnl : ∀ m M, a.min = some m → a.max = some M → m.allows M = false ∧ M.allows m = false)
     (hloc : ∀ m, (a.min = some m ∨ a.max = some m ∨ b.max = some m) → m.isLocal = false) :
     ∃ res, RC.difference (.rng a) (.rng b) = .ok res ∧
       ∀ p, p.wf = true → Regular (a.bounds ++ b.bounds) p → res.allowsPlain p = (a.allows p && !b.allows p) :=
-  VRange.difference_total a b ha hb hta htb hec hnl hloc
+  VRange.difference_total a b ha hb hta htb hec hloc
 
 /-- **range ∖ version is exact whenever it returns**, for a version that is regular for the range's bounds
 (then the split point lies strictly inside the range). -/
